@@ -214,3 +214,102 @@ func vh_C08_slow_connect_handler() {
 	vCover(len(log) > 2, "callbacks-after-connect")
 	_ = c
 }
+
+// C08 (unsubscribe callback, subscription established while an unsubscribe is
+// already waiting for it): a paginated map subscribe is loading (first STATE
+// page answered), a server-side Unsubscribe for the channel starts and parks
+// on the wait gate of the in-flight subscribe, the client finishes the
+// pagination and the subscription goes live, the parked unsubscribe then tears
+// it down. The subscription was established and has ended: the unsubscribe
+// callback ran exactly once (and the subscribe callback once).
+func vh_C08_unsubscribe_parked_on_map_subscribe() {
+	n := vNewNode(Config{Map: MapConfig{GetMapChannelOptions: func(string) MapChannelOptions {
+		return MapChannelOptions{Mode: MapModeRecoverable, KeyTTL: 3600_000_000_000, MinPageSize: 1}
+	}}})
+	subs, unsubs := 0, 0
+	n.OnConnect(func(c *Client) {
+		c.OnSubscribe(func(e SubscribeEvent, cb SubscribeCallback) {
+			subs++
+			cb(SubscribeReply{Options: SubscribeOptions{Type: SubscriptionTypeMap}}, nil)
+		})
+		c.OnUnsubscribe(func(e UnsubscribeEvent) { unsubs++ })
+	})
+	ctx := context.Background()
+	const ch = "m"
+	for i := 0; i < 3; i++ {
+		_, err := n.mapBroker.Publish(ctx, ch, string([]byte{'k', byte('0' + i)}), MapPublishOptions{Data: []byte{byte(i)}})
+		vAssert(err == nil, "setup publish")
+	}
+	tr := vNewTransport()
+	c := vNewClient(n, "u", tr)
+	vAssert(vConnect(c), "connect")
+	vSettle()
+	var id uint32 = 10
+	request := func(req *protocol.SubscribeRequest) (*protocol.SubscribeResult, *protocol.Error) {
+		id++
+		base := len(tr.frames)
+		c.HandleCommand(&protocol.Command{Id: id, Subscribe: req}, 0)
+		vSettle()
+		for k := base; k < len(tr.frames); k++ {
+			if r, _ := vDecoded(tr.frames[k]).(*protocol.Reply); r != nil && r.Id == id {
+				return r.Subscribe, r.Error
+			}
+		}
+		return nil, nil
+	}
+	res, perr := request(&protocol.SubscribeRequest{Channel: ch, Type: int32(SubscriptionTypeMap), Phase: MapPhaseState, Limit: 2})
+	vAssert(perr == nil && res != nil && res.Phase == MapPhaseState && res.Cursor != "", "first state page, more to load")
+	offset, epoch, cursor := res.Offset, res.Epoch, res.Cursor
+
+	// the unsubscribe arrives while the subscription is loading
+	parked := vChoice("unsubscribe_while_loading", 2) == 1
+	done := false
+	if parked {
+		go func() {
+			c.Unsubscribe(ch)
+			done = true
+		}()
+		vSettle()
+		vCover(!done, "unsubscribe-parked-on-the-wait-gate")
+	}
+	live := false
+	for step := 0; step < 6 && !live; step++ {
+		var r *protocol.SubscribeResult
+		var e *protocol.Error
+		if cursor != "" {
+			r, e = request(&protocol.SubscribeRequest{Channel: ch, Type: int32(SubscriptionTypeMap), Phase: MapPhaseState, Limit: 2, Cursor: cursor, Offset: offset, Epoch: epoch})
+		} else {
+			r, e = request(&protocol.SubscribeRequest{Channel: ch, Type: int32(SubscriptionTypeMap), Phase: MapPhaseStream, Limit: 2, Offset: offset, Epoch: epoch})
+		}
+		if e != nil || r == nil {
+			break // refused: the subscription was never established
+		}
+		switch r.Phase {
+		case MapPhaseState:
+			cursor = r.Cursor
+		case MapPhaseStream:
+			offset = r.Offset
+		case MapPhaseLive:
+			live = true
+		}
+	}
+	vSettle()
+	if !parked {
+		vAssert(live, "reaches live")
+		c.Unsubscribe(ch)
+		vSettle()
+	} else if !done {
+		// still parked: its 5 s gate timeout
+		vAdvance(6_000_000_000)
+		vSettle()
+	}
+	vAssert(!c.IsSubscribed(ch), "subscription ended")
+	vAssert(subs >= 1, "subscribe callback ran")
+	if live {
+		// established, then ended
+		vAssert(unsubs == 1, "unsubscribe callback exactly once for an established subscription that ended")
+	} else {
+		vAssert(unsubs == 0, "no unsubscribe callback for a subscription that was never established")
+	}
+	vCover(parked && live, "went-live-while-unsubscribe-waited")
+}
